@@ -23,6 +23,7 @@ func main() {
 	marching3(r)
 	marching2(r)
 	dualContour(r)
+	dcShortcuts(r)
 	estimator(r)
 
 	r.Require("mc.meshes", 20)
